@@ -114,7 +114,7 @@ def check_value(ctx, T, v) -> str:
         if not accepted:
             if beyond_f32:
                 return "in-range:f32-overflow-refused"
-            ctx.fail(f"C09:inrange-rejected:{D.codec_label(T)}", inp, f"{T.__name__}.to_knx({v!r}) raised ConversionError although {p.lo} <= v <= {p.hi}")
+            D.fail_capped(ctx, f"C09:inrange-rejected:{D.codec_label(T)}", inp, lambda: f"{T.__name__}.to_knx({v!r}) raised ConversionError although {p.lo} <= v <= {p.hi}", cap=2000)
             return "fail"
         if not _shape_ok(p, payload):
             ctx.fail(f"C09:payload-shape:{D.codec_label(T)}", inp, f"{T.__name__}.to_knx({v!r}) -> {payload!r}, expected DPTArray of {p.length} octets")
